@@ -7,6 +7,7 @@
 From Coq Require Import ZArith List Bool.
 Import ListNotations.
 Require Import PV.Infer.Mini PV.Proofs.InferBase PV.Proofs.InferSound PV.Proofs.InferStmt.
+Require Import PV.Gen.Ops PV.Ops.SeqIndex PV.Proofs.OpsSeqIndex PV.Proofs.InferCompose.
 
 (* the property on the mini-language, guarded: == is only narrowed against non-numeric literals
    (stmt_okb).  For every program the analysis accepts — with whatever loop invariants `inv` the
@@ -105,3 +106,30 @@ Example C01_guard_inhabited :
   length (fst (exec 30 [(0, OInt 3)] example_prog)) = 12.
 Proof. exact infer_sound_guard_inhabited. Qed.
 Print Assumptions C01_guard_inhabited.
+
+(* ---- composition with C19 (Ops/SeqIndex.v over PV.Gen.Ops, regenerated from implementation.py on
+   every run): the mini-language's subscript rule is the int-key branch of
+   _sequence_common_getitem_impl on sequences without unpacked members, so a change of the source's
+   index arithmetic (in_range, forward_scan, index_from_back) changes Gen/Ops.v and these obligations. *)
+Theorem C01_subscript_is_impl_rule : forall vs k,
+  tuple_index vs k =
+  match seq_getitem_int KTuple (single_members vs) k with
+  | RMember w => Some w
+  | _ => None
+  end.
+Proof. exact mini_subscript_is_impl_rule. Qed.
+Print Assumptions C01_subscript_is_impl_rule.
+
+(* soundness of the subscript obtained from C19_seq_index_sound (not re-proved) *)
+Theorem C01_subscript_sound_from_C19 : forall vs k w os o,
+  member (OTuple os) (VSeq vs) = true -> tuple_index vs k = Some w -> tuple_index os k = Some o ->
+  member o w = true.
+Proof. exact subscript_sound_from_c19. Qed.
+Print Assumptions C01_subscript_sound_from_C19.
+
+(* the analysis leaves the fragment on a subscript exactly when CPython raises IndexError
+   (from C19_seq_index_error_iff) *)
+Theorem C01_subscript_none_iff_index_error : forall vs k os,
+  member (OTuple os) (VSeq vs) = true -> (tuple_index vs k = None <-> tuple_index os k = None).
+Proof. exact subscript_none_iff_index_error. Qed.
+Print Assumptions C01_subscript_none_iff_index_error.
